@@ -156,6 +156,7 @@ def install(names=None):
     from scoda.misc.util import get_default_step_sizes, get_default_note_values
     from scoda.tokenisation.notelike_tokenisation import MultiTrackLargeVocabularyNotelikeTokeniser as Tok
     from scoda.settings.settings import PPQN, NOTE_LOWER_BOUND, NOTE_UPPER_BOUND
+    import scoda.settings.settings as _settings
 
     ALL = ["conv", "normalise", "split", "quantise", "qnl", "bars", "transpose", "merge", "equals", "c18",
            "tokenise", "theory", "bar_inv", "seq_inv", "time_type"]
@@ -310,7 +311,7 @@ def install(names=None):
         @_guard
         def post_q(self, step_sizes, OLD):
             wf, pre, notes0, nonf0, non0 = OLD.pre
-            steps = list(step_sizes) if step_sizes is not None else list(get_default_step_sizes())
+            steps = list(step_sizes) if step_sizes is not None else orc.default_step_sizes(_settings)
             if not wf or not steps or not all(type(s) is int and s > 0 for s in steps):
                 vac("quantise", "all")
                 return True
@@ -381,7 +382,7 @@ def install(names=None):
         @_guard
         def post_qnl(self, note_values, do_not_extend, OLD):
             wf, notes0, non0 = OLD.pre
-            nv = list(note_values) if note_values is not None else list(get_default_note_values())
+            nv = list(note_values) if note_values is not None else orc.default_note_values(_settings)
             if not wf or not nv or not all(type(x) is int and x > 0 for x in nv):
                 vac("qnl", "all")
                 return True
@@ -479,7 +480,7 @@ def install(names=None):
                 last = gridx[nb - 1][1] if nb else 0
                 rec("C09", "bars", "coverage", nb > 0 and total >= D and total - D < last, (nb, total, D))
             keyfn = orc.step_fn(meta["ks"], "", 10 ** 9)
-            allowed = set(get_default_note_values())
+            allowed = set(orc.default_note_values(_settings))
             for ti, trk in enumerate(result):
                 off = 0
                 snds = []
@@ -818,7 +819,7 @@ def install(names=None):
                 vac("scale", "all")
                 return True
             if quantise_afterwards:
-                nv = set(get_default_note_values())
+                nv = set(orc.default_note_values(_settings))
                 conform = (pre["wf"] and all(grid_ok(on * k) and grid_ok(of * k) and (of - on) * k in nv
                                              for (c, p, on, of, v) in pre["notes"])
                            and all(grid_ok(e[0] * k) for e in pre["non"]) and grid_ok(pre["dur"] * k))
